@@ -91,8 +91,7 @@ CHECKS = {
             "constructor, serialized and deserialized by the generated code with fresh writer/reader: equal field by field, all bytes "
             "consumed, byte_size equal to the byte count at every nesting level; random larger objects are classified by the model (mode givenrt) "
             "and round-tripped; programs whose field names are the generated code's own identifiers must round-trip like any other",
-            "the corpus (hand-written + SpecGen-generated programs) bounds 'all programs'; Appendix A of DESIGN.md is the reading of the XML semantics; "
-            "two recorded known findings (F11: fields named reader / reader_start_position)",
+            "the corpus (hand-written + SpecGen-generated programs) bounds 'all programs'; Appendix A of DESIGN.md is the reading of the XML semantics",
             "DESIGN.md 6 C01"),
     "C02": ("TLA+ small-step serializer over the EoWriter spec (one action per XML instruction step, lazy value choice); TLC enumerates "
             "objects and predicts bytes; replay on the code the real generator emits, in two spellings of the boolean defaults",
